@@ -161,8 +161,8 @@ class Contract:
         self.ensures_on_raise_.append((name, fn))
         return self
 
-    def loop(self, ordinal, invariant=None, frame=None, decreases=None, lists=True, ghost=(), single_iteration=None, sets=False):
-        self.loops[ordinal] = LoopSpec(invariant, frame, decreases, lists, ghost=ghost, single_iteration=single_iteration, sets=sets)
+    def loop(self, ordinal, invariant=None, frame=None, decreases=None, lists=True, ghost=(), single_iteration=None, sets=False, allocates=False):
+        self.loops[ordinal] = LoopSpec(invariant, frame, decreases, lists, ghost=ghost, single_iteration=single_iteration, sets=sets, allocates=allocates)
         return self
 
     def modifies(self, *fields, lists=False, sets=False):
